@@ -43,6 +43,8 @@ type dnet struct {
 	now      time.Duration
 	timers   []*vtimer
 	black    bool // truncation happened: nothing is delivered any more
+	blackDir [2]bool // cut, mode half: nothing of direction d is delivered any more
+	wfail    [2]bool // cut: the socket of endpoint i was closed by the network, its WriteTo fails
 
 	seen    [2][]recInfo // honest records per direction, as written (retransmissions included)
 	ed      edit
@@ -245,6 +247,9 @@ func (e *dend) WriteTo(p []byte, _ net.Addr) (int, error) {
 	if n.closed[e.who] {
 		return 0, net.ErrClosed
 	}
+	if n.wfail[e.who] {
+		return 0, &net.OpError{Op: "write", Net: "mem", Err: net.ErrClosed}
+	}
 	d := e.who
 	n.retrans[d]++
 	// split the datagram into records
@@ -273,14 +278,35 @@ func (e *dend) WriteTo(p []byte, _ net.Addr) (int, error) {
 			break
 		}
 	}
-	if len(out) > 0 && !n.black && !n.closed[1-d] {
+	if len(out) > 0 && !n.black && !n.blackDir[d] && !n.closed[1-d] {
 		n.q[1-d] = append(n.q[1-d], out)
 	}
 	if cut {
-		n.black = true
+		n.cutNow()
 	}
 	n.cond.Broadcast()
 	return len(p), nil
+}
+
+// cutNow (n.mu held): truncation, or the cut edit: the network stops delivering (both directions;
+// mode half: the edited direction only) and, in the modes hard / half, further WriteTo calls of
+// the affected endpoints fail.
+func (n *dnet) cutNow() {
+	if n.ed.kind != "cut" {
+		n.black = true
+		return
+	}
+	d := n.ed.dir
+	switch n.ed.mode {
+	case "half":
+		n.blackDir[d] = true
+		n.wfail[d] = true
+	case "soft":
+		n.black = true
+	default:
+		n.black = true
+		n.wfail[0], n.wfail[1] = true, true
+	}
 }
 
 func dInjected(kind string, seq int) []byte {
@@ -320,6 +346,15 @@ func (n *dnet) route(d, idx int, rec []byte) ([]byte, bool) {
 			n.applied = true
 			n.target = append([]byte(nil), rec...)
 			return append(append([]byte(nil), rec...), dInjected(ed.inj, 40+ed.rec)...), false
+		}
+		return rec, false
+	}
+	if ed.kind == "cut" {
+		// the datagram ends behind honest record rec-1 and the network is cut there
+		if idx == ed.rec-1 {
+			n.applied = true
+			n.target = append([]byte(nil), rec...)
+			return rec, true
 		}
 		return rec, false
 	}
@@ -368,6 +403,10 @@ func (n *dnet) route(d, idx int, rec []byte) ([]byte, bool) {
 }
 
 func (n *dnet) start() {
+	if n.ed.kind == "cut" && n.ed.rec == 0 {
+		n.applied = true
+		n.cutNow()
+	}
 	if n.ed.kind == "inject" && n.ed.rec == 0 {
 		n.applied = true
 		n.q[1-n.ed.dir] = append(n.q[1-n.ed.dir], dInjected(n.ed.inj, 40))
